@@ -154,6 +154,7 @@ class CallGraph:
         par = pm.get(id(node))
         while par is not None:
             if par.get('k') == 'block':
+                here = {}
                 for st in par.get('body', []):
                     if st is child:
                         break
@@ -165,7 +166,16 @@ class CallGraph:
                                     p = field_path(x)
                                     if p is not None and 'mutex' in str(x.get('t', '')):
                                         mk = (p[0], p[1])
-                                held.append((mk, 'recursive_mutex' in str(v.get('t', ''))))
+                                here[v.get('name')] = (mk, 'recursive_mutex' in str(v.get('t', '')))
+                    elif st.get('k') == 'call' and st.get('name') in ('unlock', 'lock') and isinstance(st.get('obj'), dict) \
+                            and st['obj'].get('k') == 'ref' and st['obj'].get('name') in here:
+                        # std::unique_lock released / re-taken explicitly in the same straight-line block
+                        ent = here[st['obj']['name']]
+                        here[st['obj']['name']] = (ent[0], ent[1], st.get('name') == 'unlock')
+                for ent in here.values():
+                    if len(ent) == 3 and ent[2]:
+                        continue
+                    held.append((ent[0], ent[1]))
             child = par
             par = pm.get(id(par))
         return held
